@@ -46,11 +46,12 @@ static void state_out(int full)
     for (size_t i = 0; i < H->num_entries; i++) {
         uint64_t k = (uint64_t)(uintptr_t)H->entries[i].key, v = (uint64_t)(uintptr_t)H->entries[i].value;
         if (k != 0 || v != 0) {
-            cs = (cs * 1000003u + (uint64_t)i) % 2147483648u;
-            cs = (cs * 1000003u + (k % 1073741824u)) % 2147483648u;
-            cs = (cs * 1000003u + ((k >> 30) % 1073741824u)) % 2147483648u;
-            cs = (cs * 1000003u + (v % 1073741824u)) % 2147483648u;
-            cs = (cs * 1000003u + ((v >> 30) % 1073741824u)) % 2147483648u;
+            uint64_t c = (uint64_t)i % 2147483648u;
+            c = (c * 1000003u + (k % 1073741824u)) % 2147483648u;
+            c = (c * 1000003u + ((k >> 30) % 1073741824u)) % 2147483648u;
+            c = (c * 1000003u + (v % 1073741824u)) % 2147483648u;
+            c = (c * 1000003u + ((v >> 30) % 1073741824u)) % 2147483648u;
+            cs = (cs + c) % 2147483648u;
         }
     }
     printf(" | H %lu %lu %lu %lu %lu %lu %lu %d %d %lu %lu C %lu", (unsigned long)H->mask, (unsigned long)H->num_entries,
